@@ -580,11 +580,16 @@ fn bounds_case(case_seed: u64, c: &mut Collector) {
             2 => Some("skip = false"),
             _ => None,
         };
-        let other = match rng.below(6) {
+        // (options in combination too: a field that has its own converter and a default, or collects every
+        // occurrence, is parsed like any other and its parameters need the bound)
+        let other = match rng.below(9) {
             0 => Some("default"),
             1 => Some("with = conv"),
             2 => Some("multiple"),
             3 => Some("map = f"),
+            4 => Some("with = conv, default"),
+            5 => Some("with = conv, multiple"),
+            6 => Some("default = \"mk\", with = conv, map = f"),
             _ => None,
         };
         // a newtype hands its input to its only field whatever that field says, so `skip` there does
